@@ -28,7 +28,8 @@ Inductive panic_kind :=
 | PCloseClosed    (* close of closed channel *)
 | PImpossible     (* panic("impossible") / panic("unreachable") *)
 | PReflectCall    (* reflect: Call with wrong argument count or type *)
-| PTypeAssert.    (* failed x.(T) *)
+| PTypeAssert     (* failed x.(T) *)
+| PInvalidArg.    (* a library function rejecting its argument by panicking (rand.Intn(n <= 0)) *)
 
 Inductive err_kind :=
 | EArity (lo hi actual : Z)   (* errs.ArityMismatch; hi = -1: no upper limit *)
@@ -592,6 +593,22 @@ Section Subseq.
 End Subseq.
 
 (* ================================================================== *)
+(* F. randint with two machine-int bounds (randIntSmallInt): which generator runs *)
+
+Definition wrap64 (z : Z) : Z := (z + 2 ^ 63) mod 2 ^ 64 - 2 ^ 63.
+
+(* rand.Intn panics unless n > 0 *)
+Definition rand_intn (n : Z) : res unit := if n <=? 0 then Panic PInvalidArg else Ok tt.
+(* big.Int.Rand(r, n) with n > 0 *)
+Definition big_rand (n : Z) : res unit := if n <=? 0 then Panic PInvalidArg else Ok tt.
+
+Definition randint_small (low high : Z) : res unit :=
+  if high <=? low then Err EBadValue else
+  let diff := wrap64 (high - low) in           (* machine subtraction *)
+  if diff <=? 0 then big_rand (high - low)     (* the difference does not fit: exact arithmetic *)
+  else rand_intn diff.
+
+(* ================================================================== *)
 (* cases and judge *)
 
 (* what the harness saw *)
@@ -650,7 +667,8 @@ Inductive case :=
         (o : obs (list (list N)))
 | CForm (input_is_pipe output_is_pipe : bool) (rs : list redir) (o : obs (list (option port)))
 | CPow (bn bd e : Z) (o : obs (Z * Z))
-| CSubseq (s t : bytes) (o : obs bool).
+| CSubseq (s t : bytes) (o : obs bool)
+| CRandint (low high : Z) (o : obs Z).
 
 Definition judge_gofn ps variadic rets args opts (o : obs (Z * Z)) : N :=
   match new_gofn ps variadic with
@@ -686,6 +704,11 @@ Definition go_has_subseq (s t : bytes) : res bool :=
 Definition judge_subseq (s t : bytes) (o : obs bool) : N :=
   code (check_C17 o) (agree Bool.eqb (go_has_subseq s t) o).
 
+(* the value must lie in [low, high) *)
+Definition judge_randint (low high : Z) (o : obs Z) : N :=
+  code (check_C17 o)
+       (agree (fun (_ : unit) (v : Z) => (low <=? v) && (v <? high)) (randint_small low high) o).
+
 Definition judge1 (c : case) : N :=
   match c with
   | CGoFn ps v rets args opts o => judge_gofn ps v rets args opts o
@@ -693,6 +716,7 @@ Definition judge1 (c : case) : N :=
   | CForm ip op rs o => judge_form ip op rs o
   | CPow bn bd e o => judge_pow bn bd e o
   | CSubseq s t o => judge_subseq s t o
+  | CRandint low high o => judge_randint low high o
   end.
 
 Definition judge := judge_with judge1.
